@@ -37,6 +37,18 @@ def standin_densities(tier, seed):
         if not np.allclose(gotb, wantb, rtol=1e-6, atol=1e-6):
             violations.append(dict(key="BernoulliFamily._nll differs from -(x log p + (1-x) log(1-p))", x=xb.tolist(), p=p.tolist()))
             break
+        # saturated probabilities (a float32 logistic value is exactly 0 or 1 far from onset), outcome agreeing: the density is 1,
+        # its negative log 0 -- finite and (up to the library's clamping of p, ~1e-6 in single precision) zero, never NaN
+        for dt in (torch.float32, torch.float64):
+            ps = torch.tensor([1.0, 0.0, 1.0, 0.0], dtype=dt)
+            xs = torch.tensor([1.0, 0.0, 1.0, 0.0], dtype=dt)
+            gots = BernoulliFamily._nll(WeightedTensor(xs), ps).value.double().numpy()
+            evals += 1
+            if not (np.all(np.isfinite(gots)) and np.all(np.abs(gots) < 1e-5)):
+                violations.append(dict(key="BernoulliFamily._nll is not (close to) 0 and finite for a certain outcome (p = 0 or 1 exactly, outcome agreeing)",
+                                       p=ps.tolist(), x=xs.tolist(), got=gots.tolist()))
+        if violations:
+            break
         # Weibull
         n_ev = int(rng.integers(1, 3))
         t = torch.tensor(rng.uniform(60, 90, (nn, n_ev)))
